@@ -761,7 +761,10 @@ def check_structural(ctx):
             d, c = MiniEval({}).ev(v.args[1], {}), MiniEval({}).ev(v.args[2], {})
             f = lambda_on_labels(v.args[3])
             labels = tuple("abc"[:d])
-            got = f(labels) if d == want[0] else None
+            try:
+                got = f(labels) if d == want[0] else None
+            except (TypeError, IndexError, ValueError) as e:
+                got = "raises %s" % type(e).__name__
         except RefError as e:
             got = str(e)
         except Unsupported as e:
@@ -806,6 +809,8 @@ def check_structural(ctx):
             return None
         except RefError as e:
             return str(e)
+        except (TypeError, ZeroDivisionError, IndexError) as e:          # the arithmetic of the constructor itself fails on these arguments
+            return "the constructor raises %s: %s" % (type(e).__name__, str(e)[:80])
 
     n_inst = 0
     for cname, domain, want in (
